@@ -35,6 +35,8 @@ inductive Target where
 structure Note where
   n : Nat
   tgt : Target
+  /-- ghost: value of the model's establishment clock when the behaviour emitted the event -/
+  emitAt : Nat := 0
   deriving DecidableEq, Repr, Inhabited
 
 /-- `task::Command` -/
@@ -73,6 +75,8 @@ structure Conn where
   done : Bool := false
   /-- ghost: events passed to `on_behaviour_event`, in order -/
   got : List Note := []
+  /-- ghost: value of the establishment clock when `spawn_connection` ran -/
+  estAt : Nat := 0
   deriving Repr, Inhabited
 
 def Conn.pollReady (fixed : Bool) (k : Conn) : Ready :=
@@ -156,11 +160,21 @@ structure Drop where
   liveAll : List Nat
   deriving Repr, Inhabited
 
+/-- an entry of `Pool::pending` whose task has not reported yet.  The `ConnectionId` was allocated
+when the dial was built (`DialOpts`) / the inbound connection accepted — NOT when it gets established. -/
 structure Dial where
   id : Nat
+  /-- outbound: the expected peer; inbound: the authenticated peer, known once `resolved` -/
   peer : Nat
+  inbound : Bool
+  /-- `abort_notifier` dropped (`Pool::disconnect`) -/
   aborted : Bool
+  /-- environment: the transport dial / inbound upgrade has completed -/
+  resolved : Bool
   deriving Repr, Inhabited
+
+/-- the pending task has something to report when it is polled -/
+def Dial.ready (d : Dial) : Bool := d.aborted || d.resolved
 
 structure PendMsg where
   id : Nat
@@ -183,6 +197,17 @@ structure State where
   dropped : List Drop := []
   /-- ghost: global delivery log (connection, number) -/
   log : List (Nat × Nat) := []
+  /-- ghost: numbers of the `NotifyHandler` events in the order `handle_behaviour_event` saw them -/
+  emLog : List Nat := []
+  /-- ghost: establishment clock (incremented by every `spawn_connection`) -/
+  clock : Nat := 0
+  /-- `TransportEvent::Incoming` events waiting in the scripted transport -/
+  incomingQ : Nat := 0
+  /-- harness convention: the outbound dial left open by a `dial` op and not yet named by a `resolve`
+  op.  At most one at a time: the task of an open outbound dial wakes itself on every poll (its inner
+  `FuturesUnordered`), and two such tasks make the pool's `FuturesUnordered` yield before all ready
+  tasks have run — scheduling the model does not describe. -/
+  openDial : Option Nat := none
   /-- an oracle token did not denote an enabled choice -/
   bad : Bool := false
   deriving Repr, Inhabited
@@ -242,14 +267,15 @@ def deliverPending (s : State) (p : Pending) : State × Bool :=
 def disconnect (s : State) (p : Nat) : State :=
   { s with
     conns := s.conns.map (fun k => if k.peer == p then k.startClose s.buf else k)
-    dialing := s.dialing.map (fun d => if d.peer == p then { d with aborted := true } else d) }
+    dialing := s.dialing.map (fun d => if d.peer == p && !d.inbound then { d with aborted := true } else d) }
 
 /-- `handle_behaviour_event` (only reached with `pending_handler_event = None`) -/
 def handleBeh (s : State) : BCmd → State
-  | .one c n => { s with pending := some ⟨⟨n, .one c⟩, .one c, none⟩ }
+  | .one c n => { s with pending := some ⟨⟨n, .one c, s.clock⟩, .one c, none⟩, emLog := s.emLog ++ [n] }
   | .any p n ch =>
-    let ids := (s.conns.filter (·.peer == p)).map (·.id)
-    { s with pending := some ⟨⟨n, .any ids⟩, .any ids, ch⟩ }
+    { s with pending := some ⟨⟨n, .any ((s.conns.filter (·.peer == p)).map (·.id)), s.clock⟩,
+                              .any ((s.conns.filter (·.peer == p)).map (·.id)), ch⟩,
+             emLog := s.emLog ++ [n] }
   | .closeOne c => { s with conns := upd s.conns c (Conn.startClose s.buf) }
   | .closeAll p => disconnect s p
   | .gen => { s with swarmEvs := s.swarmEvs + 1 }
@@ -267,9 +293,10 @@ def dropAll (s : State) : List Note → State
   | e :: r => dropAll (s.dropNote e e.tgt) r
 
 def advanceLocal (s : State) : State :=
-  let msgs := s.dialing.map (fun d => (⟨d.id, d.peer, !d.aborted⟩ : PendMsg))
+  let msgs := (s.dialing.filter Dial.ready).map (fun d => (⟨d.id, d.peer, !d.aborted⟩ : PendMsg))
   let (cs, lg, dr) := runAll s.conns
-  dropAll { s with dialing := [], pendQ := s.pendQ ++ msgs, conns := cs, log := s.log ++ lg } dr
+  dropAll { s with dialing := s.dialing.filter (fun d => !d.ready), pendQ := s.pendQ ++ msgs, conns := cs,
+                   log := s.log ++ lg } dr
 
 inductive Ret where
   | pending
@@ -277,6 +304,7 @@ inductive Ret where
   | closed (c : Nat)
   | est (c p : Nat)
   | fail (c : Nat)
+  | incoming (c : Nat)
   deriving DecidableEq, Repr, Inhabited
 
 /-- the pool handles `EstablishedConnectionEvent::Closed` of connection `c` -/
@@ -288,7 +316,8 @@ def reportClosed (s : State) (c : Nat) (bad : Bool) : State × Option Ret :=
 def reportPending (s : State) (m : PendMsg) (bad : Bool) : State × Option Ret :=
   if m.ok then
     ({ s with pendQ := s.pendQ.filter (fun x : PendMsg => x.id != m.id), bad := bad,
-              conns := s.conns ++ [({ id := m.id, peer := m.peer } : Conn)] }, some (.est m.id m.peer))
+              conns := s.conns ++ [({ id := m.id, peer := m.peer, estAt := s.clock } : Conn)],
+              clock := s.clock + 1 }, some (.est m.id m.peer))
   else
     ({ s with pendQ := s.pendQ.filter (fun x : PendMsg => x.id != m.id), bad := bad }, some (.fail m.id))
 
@@ -312,10 +341,21 @@ def poolPoll (s : State) (pick : Option Nat) : State × Option Ret :=
     | m0 :: _ => reportPending s (pickMsg s.pendQ m0 pick) (s.bad || (pick != some (pickMsg s.pendQ m0 pick).id))
     | [] => (advanceLocal s, none)
 
+/-- a new entry of `Pool::pending`; this is where the `ConnectionId` is allocated -/
+def State.alloc (s : State) (peer : Nat) (inbound resolved : Bool) : State :=
+  { s with dialing := s.dialing ++ [⟨s.nextConn, peer, inbound, false, resolved⟩], nextConn := s.nextConn + 1 }
+
+/-- the transport is polled last: `TransportEvent::Incoming` → `handle_transport_event` allocates the
+id, `Pool::add_incoming`, `SwarmEvent::IncomingConnection` -/
+def transportPoll (s : State) : State × Ret :=
+  if s.incomingQ > 0 then
+    (({ s with incomingQ := s.incomingQ - 1 } : State).alloc 0 true false, .incoming s.nextConn)
+  else (s, .pending)
+
 def poolPart (s : State) (pick : Option Nat) : State × Ret :=
   match poolPoll s pick with
   | (s', some r) => (s', r)
-  | (s', none) => (s', .pending)
+  | (s', none) => transportPoll s'
 
 /-- `poll_next_event` -/
 def pollLoop : Nat → State → Option Nat → State × Ret
@@ -354,7 +394,14 @@ def pushCmds (s : State) : List ECmd → State
   | .gen :: r => pushCmds { s with behQ := s.behQ ++ [.gen] } r
 
 inductive Op where
+  /-- `Swarm::dial` whose transport dial completes at once -/
   | connect (p : Nat)
+  /-- `Swarm::dial`: the id is allocated now, the transport dial stays open -/
+  | dial (p : Nat)
+  /-- the open dial / inbound upgrade of connection `c` completes (inbound: authenticating peer `p`) -/
+  | resolve (c p : Nat)
+  /-- the scripted transport gets a `TransportEvent::Incoming` -/
+  | incoming
   | close (c : Nat)
   | disconnect (p : Nat)
   | rclose (c : Nat)
@@ -367,7 +414,7 @@ inductive Out where
   | res (b : Bool)
   | unit
   | n (next : Nat)
-  | poll (ret : Ret) (deliv : List (Nat × Nat)) (drops : List Nat) (ne : Nat) (bad : Bool)
+  | poll (ret : Ret) (deliv : List (Nat × Nat)) (drops : List Nat) (ne : Nat) (em : List Nat) (bad : Bool)
   deriving Repr, Inhabited
 
 def insertBy (x : Nat × Nat) : List (Nat × Nat) → List (Nat × Nat)
@@ -386,8 +433,17 @@ def sortNat (l : List Nat) : List Nat := l.foldr insertNat []
 def pollFuel (s : State) : Nat := 2 * s.behQ.length + 4
 
 def step (s : State) : Op → State × Out
-  | .connect p =>
-    ({ s with dialing := s.dialing ++ [⟨s.nextConn, p, false⟩], nextConn := s.nextConn + 1 }, .id s.nextConn)
+  | .connect p => (s.alloc p false true, .id s.nextConn)
+  | .dial p =>
+    if s.openDial.isSome then (s.alloc p false true, .id s.nextConn)
+    else ({ s.alloc p false false with openDial := some s.nextConn }, .id s.nextConn)
+  | .resolve c p =>
+    ({ s with
+       openDial := if s.openDial == some c then none else s.openDial
+       dialing := s.dialing.map (fun d =>
+        if d.id == c && !d.resolved then { d with resolved := true, peer := if d.inbound then p else d.peer }
+        else d) }, .unit)
+  | .incoming => ({ s with incomingQ := s.incomingQ + 1 }, .unit)
   | .close c =>
     ({ s with conns := upd s.conns c (Conn.startClose s.buf) }, .res (findConn s.conns c).isSome)
   | .disconnect p => (disconnect s p, .res (s.conns.any (·.peer == p)))
@@ -396,7 +452,8 @@ def step (s : State) : Op → State × Out
   | .poll pick =>
     let (s', ret) := pollLoop (pollFuel s) { s with bad := false } pick
     (s', .poll ret (groupByConn (s'.log.drop s.log.length))
-                   (sortNat ((s'.dropped.drop s.dropped.length).map (·.e.n))) s'.conns.length s'.bad)
+                   (sortNat ((s'.dropped.drop s.dropped.length).map (·.e.n))) s'.conns.length
+                   (s'.emLog.drop s.emLog.length) s'.bad)
 
 /-- `Config::with_notify_handler_buffer_size(n)`: the command channel is `mpsc::channel(n - 1)` -/
 def State.init (n : Nat) (fixed : Bool := true) : State := { buf := n - 1, fixed := fixed }
